@@ -42,7 +42,23 @@ fn visit(v: &Visit, st: &mut Stats) -> CaseResult {
         st.nontrivial(pos_hash(v.pos) ^ v.pos.hm as u64);
     }
     st.sample(|| format!("{} -> {:?}", v.describe(), v.board.status()));
-    check_board(v)
+    check_board(v)?;
+    // the position after passing the turn (when allowed) is judged too: status() must not depend
+    // on anything remembered from before the pass
+    if let Some(nb) = v.board.null_move() {
+        let np = pos_of_board(&nb);
+        if well_formed(&nb, &np) {
+            st.eval(1);
+            let mut h: Vec<String> = v.hist.to_vec();
+            h.push("null".into());
+            let nv = Visit { board: &nb, pos: &np, step: &Step::Null, hist: &h, origin: v.origin };
+            let nl = np.legal_moves();
+            st.class_if(nl.is_empty(), "after-null:no-legal-move");
+            st.class_if(!nl.is_empty() && nl.iter().all(|m| np.pinned_mask_for(np.stm.other()) & (1u64 << m.from) != 0 || matches!(np.board[m.from as usize], Some((Kind::K, _)))), "after-null:only-king-or-battery-pieces-move");
+            check_board(&nv)?;
+        }
+    }
+    Ok(())
 }
 
 pub fn run(ctx: &Ctx) -> Report {
